@@ -194,6 +194,9 @@ func cmdCheck(args []string) int {
 			for _, n := range prog.applyFuncRenames(cfg.ID, recordedBind) {
 				fmt.Println("NOTE", n)
 			}
+			for _, n := range prog.applyDroppedRenames(cfg.ID, recordedBind) {
+				fmt.Println("NOTE", n)
+			}
 			for _, n := range prog.applyLoopMoves(cfg.ID, recordedBind) {
 				fmt.Println("NOTE", n)
 			}
